@@ -11,12 +11,16 @@ the composition here stops at the un-simplified marker and depends on C07 for th
 
 Proved for all strings (no bounds): the and/or/parenthesis structure with Python's laziness, exceptions included
 (`compact_agree`); leaf agreement for string variables with `==`/`!=` and for `extra == / !=` (`leaf_agree_*`);
-their composition for every marker text (`parse_eval_agree_partial`).  Stated, not proved
-(`leaf_agree_full_statement`): `in`/`not in` lists, reversed operands, and the version variables — with the two
-places where the statement is FALSE of model and code shown by concrete witnesses (`counterexample_*`).
+their composition for every marker text (`parse_eval_agree_partial`); version variables at token level
+(`leaf_agree_version_token`: `==,!=,<,<=,>,>=` on final releases of any length, through C04's bridge).  Stated,
+not proved (`leaf_agree_full_statement`): `in`/`not in` lists, reversed operands, the text → token step of the
+version variables and `~=` — with the two places where the statement is FALSE of model and code shown by
+concrete witnesses (`counterexample_*`).
 -/
 import PoetryVerif.Proofs.MarkerEval
 import PoetryVerif.Proofs.MarkerLeaf
+import PoetryVerif.Proofs.MarkerLeafVersion
+import PoetryVerif.Proofs.VersionParse
 
 set_option linter.unusedSimpArgs false
 set_option linter.unusedVariables false
@@ -108,6 +112,38 @@ theorem leaf_agree_extra_ne (E : Env) (v : String) (ex : List String) (hv : Plai
 
 example : PlainTok "nt" ∧ exEnv.extras = some ["A"] ∧ (["A"].map canonName).contains (canonName "a") = true :=
   ⟨plainTok_nt, rfl, by decide⟩
+
+/-! ### version variables, token level -/
+
+theorem parseFinal_some {s : String} {V : Version} (h : parseFinal s = some V) :
+    Version.parse s = .ok V ∧ isFinal V = true := by
+  unfold parseFinal at h
+  cases hp : Version.parse s with
+  | error e => rw [hp] at h; cases h
+  | ok v =>
+    rw [hp] at h
+    simp only at h
+    by_cases hf : isFinal v = true
+    · simp only [hf, if_true, Option.some.injEq] at h; subst h; exact ⟨rfl, hf⟩
+    · simp [hf] at h
+
+/-- **version variables compare as PEP 440 versions** (token level): for a literal and an environment value
+that parse to final releases `V`, `v` — any number of release components, any numbers — the constraint
+`parse_single_constraint` builds for `op V` (`clauseVC`, the object `SingleMarker` stores and
+`SingleMarkerLike.validate` asks `allows(v)`) admits `v` exactly when the reference comparison holds, for
+`==, !=, <, <=, >, >=`.  NOT covered here: that `SingleMarker.__init__`/`parse_marker_version_constraint` turn
+the *text* `op ++ "X.Y"` into `clauseVC op V` (string ↔ token round trip: correspondence only), and `~=`. -/
+theorem leaf_agree_version_token (sop : Spec.SOp) (ops : String) (hop : (sop, ops) ∈ orderedOps)
+    (lit ev : String) (V v : Version) (hl : parseFinal lit = some V) (he : parseFinal ev = some v) :
+    ∃ c b, clauseVC sop V = .ok c ∧ c.allows v = .ok b ∧ versionOp ops V v = some b := by
+  obtain ⟨p1, f1⟩ := parseFinal_some hl
+  obtain ⟨p2, f2⟩ := parseFinal_some he
+  exact version_token_agree sop ops hop V v f1 f2 (Version.parse_wf lit V p1) (Version.parse_wf ev v p2)
+
+example : (Spec.SOp.ge, ">=") ∈ orderedOps ∧
+    parseFinal "3.8" = some ⟨0, [3, 8], none, none, none, none, "3.8"⟩ ∧
+    parseFinal "3.10.1" = some ⟨0, [3, 10, 1], none, none, none, none, "3.10.1"⟩ :=
+  ⟨by decide, by decide +kernel, by decide +kernel⟩
 
 /-! ### the domain -/
 
@@ -338,6 +374,9 @@ theorem tie_aliases :
     · have : refAliases.all (fun q => Gen.markerAliases.contains q) = true := by decide
       exact List.contains_iff_mem.1 (List.all_eq_true.1 this p h)
   · decide
+
+/-- … for every name, not only the table's keys -/
+theorem tie_alias_resolution (n : String) : aliasName n = canonVar n := alias_eq_canon n
 
 /-- the lists `SingleMarker.__init__` branches on, as the leaf proofs case-split on them -/
 theorem tie_version_like_names :
